@@ -154,7 +154,8 @@ fn describe(c: &CallRec) -> String {
 fn matcher_fault_applies(scn: &Scenario, flat: &Flat, c: &CallRec, first_accept: Option<usize>) -> Option<u16> {
     if let Some(Fault::MatcherPanic { uid }) = op_fault(scn, c.op) {
         let fp = flat.patterns.get(uid as usize)?;
-        if fp.m == c.m {
+        // (matchers written with the real matching! macro contain no fault point)
+        if fp.m == c.m && !fp.spec.macro_form {
             if flat.ordered(c.m) {
                 return Some(uid);
             }
@@ -268,12 +269,11 @@ fn served_is_segment(s: &Served, p: &FlatPattern, i: usize, k: u32) -> Result<()
         // that it cannot run it (whether it should have been able to is C16's / C15's business)
         Resp::Unmocked => {
             matches!(s, Served::Prog { kind: ProgKind::Real(m), .. } if *m == p.m)
-                || matches!(s, Served::MockPanic(msg) if msg.contains("cannot be unmocked"))
+                || matches!(s, Served::MockPanic(msg) if !msg.contains("explicit panic of (#P"))
         }
         Resp::DefaultImpl => {
             matches!(s, Served::Prog { kind: ProgKind::DefaultBody(m), .. } if *m == p.m)
-                || (!info.has_default
-                    && matches!(s, Served::MockPanic(msg) if msg.contains("default implementation delegation")))
+                || (!info.has_default && matches!(s, Served::MockPanic(msg) if !msg.contains("explicit panic of (#P")))
         }
     };
     if ok {
@@ -338,7 +338,14 @@ pub fn check_c02(scn: &Scenario, res: &RunResult) -> Vec<Violation> {
                 }
             }
             Assigned::Unconstrained => {
-                if seg_single_use(p, 0) && s == (Served::Ret { uid: p.uid, seg: 0 }) {
+                if seg_single_use(p, 0) && p.spec.segs.len() == 1 && !matches!(s, Served::MockPanic(_)) {
+                    out.push(v(
+                        "C02",
+                        "single-use-second-request-panics",
+                        key.clone(),
+                        format!("{} has a single-use response only; its match #{k} must panic instead of producing a value, got {:?}: {}", pat_name(p.uid), s, describe(c)),
+                    ));
+                } else if seg_single_use(p, 0) && s == (Served::Ret { uid: p.uid, seg: 0 }) {
                     out.push(v(
                         "C02",
                         "single-use-twice",
@@ -457,12 +464,16 @@ pub fn check_c04(scn: &Scenario, res: &RunResult) -> Vec<Violation> {
                 deviated = true;
                 continue;
             }
-            if !attributable(&s, p, k) {
+            let seg_ok = match assigned_segment(p, k) {
+                Assigned::Seg(i) => served_is_segment(&s, p, i, k).is_ok(),
+                _ => true,
+            };
+            if !attributable(&s, p, k) || !seg_ok {
                 out.push(v(
                     "C04",
                     "slot-response",
                     format!("{:?}", c.m),
-                    format!("call fits slot {i} owned by {} but was answered {:?}: {}", pat_name(p.uid), s, describe(c)),
+                    format!("call fits slot {i} owned by {} (its match #{k}) but was answered {:?}, which is not that slot's response: {}", pat_name(p.uid), s, describe(c)),
                 ));
             }
         } else {
@@ -626,38 +637,42 @@ pub fn unmet(flat: &Flat, snap: &Snap) -> (Vec<u16>, Vec<M>) {
     (pats, methods)
 }
 
-pub fn never_called_line(m: M) -> String {
-    format!("Mock for {} was never called. Dead mocks should be removed.", m.path())
-}
-
-/// Compare a verification message with the expectations that the actual counts violate.
+/// Compare a verification message with the expectations that the actual counts violate: one line
+/// naming every violated pattern, one line naming every never-matched method (and no pattern), no
+/// other lines. Only names are looked at, not the wording.
 pub fn check_verdict_text(flat: &Flat, snap: &Snap, msg: &str) -> Result<(), String> {
     let (pats, methods) = unmet(flat, snap);
-    let lines: Vec<&str> = msg.split('\n').collect();
-    let mut used = vec![false; lines.len()];
-    for uid in &pats {
-        let name = pat_name(*uid);
-        let hits: Vec<usize> = lines
-            .iter()
-            .enumerate()
-            .filter(|(_, l)| l.contains(name) && !l.starts_with("Mock for "))
-            .map(|(i, _)| i)
-            .collect();
-        if hits.len() != 1 {
-            return Err(format!("violated pattern {name} is named by {} lines (want exactly 1)", hits.len()));
+    let mentioned: Vec<M> = snap.counts.iter().map(|(m, _)| *m).collect();
+    let mut pat_lines: std::collections::BTreeMap<u16, u32> = Default::default();
+    let mut method_lines: std::collections::BTreeMap<M, u32> = Default::default();
+    for line in msg.split('\n') {
+        if let Some(p) = flat.patterns.iter().find(|p| line.contains(pat_name(p.uid))) {
+            *pat_lines.entry(p.uid).or_default() += 1;
+        } else if let Some(m) = mentioned.iter().find(|m| line.contains(&m.path())) {
+            *method_lines.entry(*m).or_default() += 1;
+        } else {
+            return Err(format!("line {line:?} names no expectation"));
         }
-        used[hits[0]] = true;
+    }
+    for uid in &pats {
+        if pat_lines.get(uid).copied().unwrap_or(0) != 1 {
+            return Err(format!("violated pattern {} is named by {} lines (want exactly 1)", pat_name(*uid), pat_lines.get(uid).copied().unwrap_or(0)));
+        }
+    }
+    for (uid, _) in &pat_lines {
+        if !pats.contains(uid) {
+            return Err(format!("a line names pattern {}, whose expectation is met", pat_name(*uid)));
+        }
     }
     for m in &methods {
-        let want = never_called_line(*m);
-        let hits: Vec<usize> = lines.iter().enumerate().filter(|(_, l)| **l == want).map(|(i, _)| i).collect();
-        if hits.len() != 1 {
-            return Err(format!("never-matched method {} is named by {} lines (want exactly 1)", m.path(), hits.len()));
+        if method_lines.get(m).copied().unwrap_or(0) != 1 {
+            return Err(format!("never-matched method {} is named by {} lines (want exactly 1)", m.path(), method_lines.get(m).copied().unwrap_or(0)));
         }
-        used[hits[0]] = true;
     }
-    if let Some(i) = used.iter().position(|u| !u) {
-        return Err(format!("line {:?} names no violated expectation", lines[i]));
+    for (m, _) in &method_lines {
+        if !methods.contains(m) {
+            return Err(format!("a line names method {} (and no pattern), but that method was matched", m.path()));
+        }
     }
     Ok(())
 }
@@ -673,6 +688,9 @@ pub fn check_c03(scn: &Scenario, res: &RunResult) -> Vec<Violation> {
         let Some(pre) = &o.pre else { continue };
         if !pre.errors.is_empty() {
             continue;
+        }
+        if !ordinary_verdict_expected(scn, &res.log, o) {
+            continue; // a clone is (possibly) alive or this is not the creator thread: C09's business
         }
         let (pats, methods) = unmet(&flat, pre);
         let expect_fail = !pats.is_empty() || !methods.is_empty();
@@ -699,9 +717,6 @@ pub fn check_c03(scn: &Scenario, res: &RunResult) -> Vec<Violation> {
                 }
             }
             OpResult::Panicked(msg) => {
-                if msg.contains("clones still alive") || msg.contains("different thread") {
-                    continue; // lifecycle precondition not met: C09's business
-                }
                 if !expect_fail {
                     out.push(v("C03", "spurious-failure", key, format!("verification failed with {msg:?} although every expectation is met by the counts {:?}", pre.counts)));
                 } else if let Err(e) = check_verdict_text(&flat, pre, msg) {
@@ -712,4 +727,96 @@ pub fn check_c03(scn: &Scenario, res: &RunResult) -> Vec<Violation> {
         }
     }
     out
+}
+
+/// Clone population relative to the window of operation `target` (an index into `log.ops`),
+/// resolved by replaying the recorded slot events: (some clone was definitely alive throughout,
+/// every clone was definitely gone before it started). Text-independent replacement for looking at
+/// what a lifecycle panic says.
+pub fn clone_population(scn: &Scenario, log: &Log, target: usize) -> (bool, bool) {
+    struct Inst {
+        created_start: u64,
+        created_end: u64,
+        gone: Option<(u64, u64)>,
+    }
+    enum SlotEv {
+        Put { slot: u8, inst: usize },
+        Take { slot: u8, op: usize },
+    }
+    let op_of = |o: &OpRec| scn.threads.get(o.thread as usize).and_then(|t| t.get(o.index as usize)).cloned();
+    let mut insts: Vec<Inst> = vec![Inst { created_start: 0, created_end: 0, gone: None }];
+    let mut events: Vec<(u64, u8, SlotEv)> = vec![];
+    for (i, o) in log.ops.iter().enumerate() {
+        if matches!(o.result, OpResult::Skipped(_)) {
+            continue;
+        }
+        match op_of(o) {
+            Some(Op::Clone { dst, .. }) if matches!(o.result, OpResult::Done) => {
+                insts.push(Inst { created_start: o.start_step, created_end: o.end_step, gone: None });
+                events.push((o.end_step, 0, SlotEv::Put { slot: dst, inst: insts.len() - 1 }));
+            }
+            Some(Op::Drop { slot }) | Some(Op::Verify { slot }) | Some(Op::Report { slot }) | Some(Op::Hold { slot }) => {
+                events.push((o.start_step, 1, SlotEv::Take { slot, op: i }));
+            }
+            Some(Op::NoVerifyInDrop { slot }) if !matches!(o.result, OpResult::Done) => {
+                events.push((o.start_step, 1, SlotEv::Take { slot, op: i }));
+            }
+            Some(Op::Call { slot, m, keep, .. }) if matches!(m.info().recv, Recv::Val) || (matches!(m.info().recv, Recv::Rc | Recv::Arc) && !keep) => {
+                events.push((o.start_step, 1, SlotEv::Take { slot, op: i }));
+            }
+            _ => {}
+        }
+    }
+    events.sort_by_key(|e| (e.0, e.1));
+    let mut slot_map: std::collections::BTreeMap<u8, usize> = Default::default();
+    slot_map.insert(0, 0);
+    let mut held: Vec<(usize, u8)> = vec![]; // (instance, thread) moved onto a thread's stack
+    for (_, _, e) in &events {
+        match e {
+            SlotEv::Put { slot, inst } => {
+                slot_map.insert(*slot, *inst);
+            }
+            SlotEv::Take { slot, op } => {
+                if let Some(inst) = slot_map.remove(slot) {
+                    let o = &log.ops[*op];
+                    if matches!(op_of(o), Some(Op::Hold { .. })) {
+                        held.push((inst, o.thread));
+                    } else {
+                        insts[inst].gone = Some((o.start_step, o.end_step));
+                    }
+                }
+            }
+        }
+    }
+    // instances held on a thread's stack go when that thread ends (its recorded end-of-thread drops
+    // have indexes beyond its operation list) or dies
+    for (inst, thread) in held {
+        let n = scn.threads.get(thread as usize).map(|t| t.len()).unwrap_or(0);
+        let ends: Vec<&OpRec> = log.ops.iter().filter(|o| o.thread == thread && o.index as usize >= n).collect();
+        let last_step = log.ops.iter().filter(|o| o.thread == thread).map(|o| o.end_step).max().unwrap_or(0);
+        insts[inst].gone = match ends.first() {
+            Some(o) => Some((o.start_step, ends.last().map(|e| e.end_step).unwrap_or(o.end_step))),
+            // the thread died: its stack was unwound right after its last recorded operation
+            None => Some((last_step, last_step + 1)),
+        };
+    }
+    let t = &log.ops[target];
+    let (vs, ve) = (t.start_step, t.end_step);
+    let mut any_def_alive = false;
+    let mut all_def_dead = true;
+    for c in insts.iter().skip(1) {
+        let def_dead = c.created_start > ve || matches!(c.gone, Some((_, ge)) if ge < vs);
+        let def_alive = c.created_end < vs && !matches!(c.gone, Some((gs, _)) if gs <= ve);
+        any_def_alive |= def_alive;
+        all_def_dead &= def_dead;
+    }
+    (any_def_alive, all_def_dead)
+}
+
+/// Is the lifecycle precondition of an ordinary verdict met for this operation on the original:
+/// verified on the creator thread with every clone gone?
+pub fn ordinary_verdict_expected(scn: &Scenario, log: &Log, o: &OpRec) -> bool {
+    let idx = log.ops.iter().position(|x| std::ptr::eq(x, o)).unwrap_or(0);
+    let (_, all_dead) = clone_population(scn, log, idx);
+    all_dead && o.thread == 0
 }
